@@ -327,6 +327,7 @@ impl ManagerBox {
                 "dns" => Protocol::Dns(name()),
                 "dns4" => Protocol::Dns4(name()),
                 "dns6" => Protocol::Dns6(name()),
+                "dnsaddr" => Protocol::Dnsaddr(name()),
                 "tcp" => Protocol::Tcp(arg as u16),
                 "udp" => Protocol::Udp(arg as u16),
                 "ws" => Protocol::Ws(std::borrow::Cow::Borrowed("/")),
@@ -364,6 +365,7 @@ impl ManagerBox {
                 Protocol::Dns(n) => format!("dns.{}", host(&n)),
                 Protocol::Dns4(n) => format!("dns4.{}", host(&n)),
                 Protocol::Dns6(n) => format!("dns6.{}", host(&n)),
+                Protocol::Dnsaddr(n) => format!("dnsaddr.{}", host(&n)),
                 Protocol::Tcp(port) => format!("tcp.{port}"),
                 Protocol::Udp(port) => format!("udp.{port}"),
                 Protocol::Ws(_) => "ws".into(),
